@@ -63,7 +63,7 @@ const DGRAM: FuncDef = func!(
         let data: Buf = args.join_extra(b"").into();
 
         let payload_size: u16 = data.len() as u16;
-        let tot_len: u16 = std::mem::size_of::<ip_hdr>() as u16 + payload_size;
+        let tot_len: u16 = (std::mem::size_of::<ip_hdr>() as u16).wrapping_add(payload_size);
 
         let eth = eth_hdr::new(
             src.into(),
